@@ -181,7 +181,7 @@ class AccessMixin:
     def mutate(self, cell, what="mutation"):
         """called before every in-place change of a container: frame accounting"""
         ctx = self.ctx
-        if ctx.spec:
+        if ctx.spec and not getattr(cell, "temp", False):
             raise Unsupported("mutation inside a specification expression")
         if not cell.fresh:
             origin = cell.origin or "non-fresh container"
@@ -897,6 +897,8 @@ class AccessMixin:
         exp = getattr(self, "_expected_ty", None)
         if ety is None and exp is not None and exp.name == "List" and isinstance(v_j, Cell) and v_j.sym is None and not v_j.conc:
             ety = exp.args[0]          # `[[] for _ in ...]`: the element is an empty container of the declared type
+        if ety is None and exp is not None and exp.name == "List" and v_j is None and exp.args[0].name == "Opt":
+            ety = exp.args[0]          # `[None for _ in ...]` with a declared Optional element type
         if ety is None:
             raise Unsupported("comprehension element type")
         lty = TList(ety)
